@@ -69,7 +69,8 @@ def scan_support_header(h):
 
 
 ABSORB = ["rec\x001\x002\x007", "\x0012", "\x011", "\x1f7z", "\n0", "\t7", "\x7f1", "\x1bf", "\x0cA", "é9", "\u200bB", "\x00",
-          "a\x00", "\x000", "\x08" + "8", "\x01" + "9", "\\0", "\\x41", "\x0e" + "e", "?" + "?=", "\x7f" + "F", "\x00\x00" + "7"]
+          "a\x00", "\x000", "\x08" + "8", "\x01" + "9", "\\0", "\\x41", "\x0e" + "e", "?" + "?=", "\x7f" + "F", "\x00\x00" + "7",
+          "\U000E0067\U000E0062", "\U000E0100x", "\U000F0000", "a\U0010FFFFb"]
 
 
 class LiteralDoc:
